@@ -126,7 +126,7 @@ func redSegs(s *Scenario) []func(*Scenario) bool {
 	}
 	n := len(s.Segs)
 	// drop the tail
-	for keep := n / 2; keep >= 0 && keep < n; keep += (n-keep+1)/2 {
+	for keep := n / 2; keep >= 0 && keep < n; keep += (n - keep + 1) / 2 {
 		keep := keep
 		out = append(out, func(c *Scenario) bool {
 			if keep >= len(c.Segs) {
